@@ -49,3 +49,8 @@ func init() {
 		reg("log/slog."+n, func(fr *frame, a []value) value { return nil })
 	}
 }
+
+func init() {
+	// environment stub: a fixed working directory
+	reg("os.Getwd", func(fr *frame, a []value) value { return tuple{"/work", iface{}} })
+}
